@@ -531,6 +531,86 @@ fn c10_packed(rep: &mut Report, ctx: &Ctx) {
     });
 }
 
+/// Offsets beyond 2^32 (64-bit targets): a haystack of 4 GiB + 4 KiB that is
+/// never touched except in its last pages (zeroed allocations are mapped
+/// lazily, so this costs a few pages of memory), occurrences planted around
+/// the 2^32 mark, spans around it. Every API on the span must equal the same
+/// API on the sub-slice shifted by the span start, and lie inside the span.
+/// Shard 0 only; not under the interpreters.
+fn c10_far_offsets(ctx: &Ctx, rep: &mut Report) {
+    if ctx.shard != 0 || ctx.tier == Tier::Tiny || cfg!(miri) || usize::BITS < 64 {
+        return;
+    }
+    let base = 1usize << 32;
+    let total = base + 4096;
+    // (allocated by hand: a refusal must not abort the process)
+    struct Zeroed(*mut u8, std::alloc::Layout);
+    impl Drop for Zeroed {
+        fn drop(&mut self) {
+            unsafe { std::alloc::dealloc(self.0, self.1) }
+        }
+    }
+    let layout = std::alloc::Layout::from_size_align(total, 4096).unwrap();
+    let raw = unsafe { std::alloc::alloc_zeroed(layout) };
+    if raw.is_null() {
+        rep.tally("far_offsets_skipped_no_memory");
+        return;
+    }
+    let guard_ = Zeroed(raw, layout);
+    let hay: &mut [u8] = unsafe { std::slice::from_raw_parts_mut(guard_.0, total) };
+    let mut rng = Rng::new(ctx.seed).fork(0xFA12);
+    let pats: Vec<Vec<u8>> = vec![b"abcde".to_vec(), b"bcd".to_vec(), b"cdefgh".to_vec(), b"e".to_vec(), b"zab".to_vec()];
+    for at in [base - 40, base - 3, base + 2, base + 17, base + 90, base + 700] {
+        let p = rng.pick(&pats).clone();
+        hay[at..at + p.len()].copy_from_slice(&p);
+    }
+    hay[base - 2..base + 3].copy_from_slice(b"abcde"); // straddles the mark
+    let spans = [(base - 64, base + 1000), (base - 1, base + 40), (base, base + 300), (base + 1, base + 4096), (base - 200, base - 1), (base - 2, base + 3)];
+    for &kind in &Kind::ALL {
+        for imp in Imp::ALL {
+            for pre in [false, true] {
+                let cfg = Cfg::new(imp, kind).sk(SK::Both).pre(pre);
+                let s = match build_or_report(rep, &cfg, &pats) {
+                    Some(s) => s,
+                    None => continue,
+                };
+                for &span in &spans {
+                    for anchored in [false, true] {
+                        let a_span = answers(&s, kind, hay, span, anchored);
+                        let sub = &hay[span.0..span.1];
+                        let a_sub = answers(&s, kind, sub, (0, sub.len()), anchored).shifted(span.0);
+                        rep.evals(2);
+                        rep.tally("far_offset_searches");
+                        let all = a_span.all_matches();
+                        if !all.is_empty() {
+                            rep.tally("far_offset_searches_with_matches");
+                        }
+                        let small = J::obj()
+                            .with("patterns", pats_json(&pats))
+                            .with("cfg", cfg.to_json())
+                            .with("what", J::s("far_offsets"))
+                            .with("span", J::Arr(vec![J::u(span.0 as u64), J::u(span.1 as u64)]))
+                            .with("anchored", J::Bool(anchored));
+                        if !inside(&all, span) {
+                            rep.violation(
+                                &format!("span:far_offsets:{}:match_outside_span", kind.name()),
+                                format!("beyond 2^32: a reported match lies outside the span {:?}: {:?}", span, a_span),
+                                small,
+                            );
+                        } else if a_span.earliest_as_existence() != a_sub.earliest_as_existence() {
+                            rep.violation(
+                                &format!("span:far_offsets:{}:subslice", kind.name()),
+                                format!("beyond 2^32: searching the span {:?} = {:?}, the sub-slice shifted by its start = {:?}", span, a_span, a_sub),
+                                small,
+                            );
+                        }
+                    }
+                }
+            }
+        }
+    }
+}
+
 pub fn run_c10(ctx: &Ctx, rep: &mut Report) {
     let n = ctx.tier.pick(6, 900, 100_000);
     let lens = gen::vec_lengths(false);
@@ -581,6 +661,7 @@ pub fn run_c10(ctx: &Ctx, rep: &mut Report) {
         }
     }
     rep.tally_n("pattern_lists", n as u64);
+    c10_far_offsets(ctx, rep);
     c10_packed(rep, ctx);
 }
 
